@@ -34,6 +34,10 @@ const unknownWithRefinementsExt = 0x0c
 // maxRefinementsLen is the largest refinements blob the decoder accepts.
 const maxRefinementsLen = 1024
 
+// maxRefinedKnownListLen is the longest list of unknown elements that the
+// decoder lets the refinements of an unknown list stand for.
+const maxRefinedKnownListLen = 256
+
 type unknownValRefinementKey int64
 
 const unknownValNullness unknownValRefinementKey = 1
@@ -211,6 +215,8 @@ func unmarshalUnknownValue(dec *msgpack.Decoder, ty cty.Type, path cty.Path) (re
 	if err != nil {
 		return cty.DynamicVal, path.NewErrorf("failed to decode msgpack extension body: not a map")
 	}
+	// Collection length bounds found in the map, applied after the loop below.
+	lenMin, lenMax := 0, math.MaxInt
 
 	if ty == cty.DynamicPseudoType {
 		// We'll silently ignore all refinements for DynamicPseudoType for now,
@@ -303,11 +309,17 @@ func unmarshalUnknownValue(dec *msgpack.Decoder, ty cty.Type, path cty.Path) (re
 			if err != nil {
 				return cty.DynamicVal, path.NewErrorf("failed to decode msgpack extension body: length bound refinement must be integer or [integer, bool] array")
 			}
+			// The length bounds are applied together after the loop, keeping
+			// the tightest of each as the builder itself would.
 			switch keyCode {
 			case unknownValLengthMin:
-				builder = builder.CollectionLengthLowerBound(bound)
+				if bound > lenMin {
+					lenMin = bound
+				}
 			case unknownValLengthMax:
-				builder = builder.CollectionLengthUpperBound(bound)
+				if bound < lenMax {
+					lenMax = bound
+				}
 			default:
 				panic("unsupported keyCode") // should not get here
 			}
@@ -340,6 +352,20 @@ func unmarshalUnknownValue(dec *msgpack.Decoder, ty cty.Type, path cty.Path) (re
 				panic("unsupported keyCode") // should not get here
 			}
 		}
+	}
+
+	if ty.IsCollectionType() {
+		if ty.IsListType() && lenMin == lenMax && lenMin > maxRefinedKnownListLen {
+			// A list that is not null and whose length is known exactly
+			// becomes a known list of that many unknown elements, so a few
+			// bytes of refinements could ask for gigabytes. A refinement is
+			// only a hint and dropping one merely widens the range, so for
+			// an unreasonable length we keep just the lower bound and the
+			// result stays unknown.
+			lenMax = math.MaxInt
+		}
+		builder = builder.CollectionLengthLowerBound(lenMin)
+		builder = builder.CollectionLengthUpperBound(lenMax)
 	}
 
 	// NOTE: We intentionally ignore any trailing bytes after the extension
